@@ -1,8 +1,8 @@
 #!/verif/.venv/bin/python
 # Replay of a solver counterexample against the unmodified code (no shims).
-# property=C13 kernel=history label=typestate:EOM_off
+# property=C13 kernel=history label=typestate:VAR_EOM
 import sys
 sys.path[:0] = ['/repo' + "/pulser-core", '/repo' + "/pulser-simulation", "/verif"]
 from symx.replay import replay
 sys.exit(replay(check='checks.c13', kernel='history', shape={'device': 'virt', 'k': 2, 'first': 15, 'prefix': ['D_g', 'EOM_on']},
-                assignment={'op3': 14}, label='typestate:EOM_off'))
+                assignment={'op3': 24}, label='typestate:VAR_EOM'))
